@@ -545,7 +545,25 @@ impl Runner {
         for _ in 0..below(r, 3) {
             let i = below(r, served.len() as u64) as usize;
             let j = below(r, served.len() as u64) as usize;
-            match below(r, 7) {
+            match below(r, 8) {
+                7 => {
+                    // path-prefixed names: `/<name>` of the first trio carry its digests and sort before every canonical
+                    // name, the canonical names carry the digests of the files three places further: the digests keep the
+                    // certified order (so a verifier ordering the raw names rebuilds the signed root) but no longer belong
+                    // to the names they are listed under
+                    let mut s2: Vec<(String, Vec<u8>)> = w.cert.iter().map(|(k, v)| (k.clone(), v.clone())).collect();
+                    s2.sort_by(|a, b| a.0.cmp(&b.0));
+                    if s2.len() >= 6 {
+                        let prefix = ["/", "./", "a/"][below(r, 3) as usize];
+                        let mut out: Vec<(String, Vec<u8>)> = (0..3).map(|k| (format!("{prefix}{}", s2[k].0), s2[k].1.clone())).collect();
+                        for k in 0..(s2.len() - 3) {
+                            out.push((s2[k].0.clone(), s2[k + 3].1.clone()));
+                        }
+                        served = out;
+                        label.push("l_prefixed_shift");
+                    }
+                    break;
+                }
                 0 => {
                     served.remove(i);
                     label.push("l_drop");
